@@ -100,3 +100,35 @@ PROPS["C04"]["props"] = ["Props/C04.v"]
 PROPS["C08"]["props"] = ["Props/C08.v"]
 PROPS["C12"]["props"] = ["Props/C12.v"]
 PROPS["C15"]["props"] = ["Props/C15.v", "Props/C15a.v"]
+
+TB_FOLD = TB_COMMON + [
+    "hand-written control skeleton of the fold model (Model/Fold.v: evaluation order, short-circuiting, number ladders, image placeholder search) tied by the correspondence check; the ordered arm tables of fold_atom / fold_compound / fold_set / fold_statement, the empty-name guard and the verbatim shapes of the TryFoldInto impls, try_from_floats, new_*, to_image_*_with_placeholder and the Stamp / Punctuation side doors are regenerated / re-recognised on every run (T3f); lexical vocabulary lists (T2v)",
+    "Model/EnumParser.v side doors door_stamp / door_punctuation (shared with C04) for stamp and punctuation strings",
+    "f64 FromStr on arbitrary strings (sign, exponent, inf / nan) re-implemented over Flocq (Base/FloatDec2.v) and differentially checked; usize FromStr re-implemented in Base/Dec.v (proved against Coq's Decimal library)",
+    "std::collections::HashSet modelled as a duplicate-free list in insertion order (mk_set); set payloads compared up to order",
+]
+PROPS["C03"] = {
+    "props": ["Props/C03.v"],
+    "run": ["Run/FoldRun.v"],
+    "tables": ["T1", "T2v", "T3", "T3f", "T4"],
+    "n_quick": 300,
+    "n_thorough": 3000,
+    "trusted_base": TB_FOLD,
+    "assumptions": [
+        "theorems cover the FOLD third of C03 (folding the lexical value of the enum formatter's output, also with derived copulas at any depth, returns the value) and the table obligations; that the lexical parser returns that lexical value (C02) and the enum parser the value (C01) is decided here by differential testing of the two real pipelines",
+        "Rust f64 Display/FromStr round trip on numbers in [0,1] is a hypothesis (H_rt) of C03_fold_lex_of_narsese",
+        "known classes K1-K3 (inherent ambiguities of the surface syntax, listed under C01) are filtered from the text stream; K1 reappears as C03_fold_K1_witness",
+    ],
+}
+PROPS["C05F"] = {
+    "props": ["Props/C05F.v"],
+    "run": ["Run/FoldRun.v"],
+    "tables": ["T1", "T3", "T3f", "T4"],
+    "n_quick": 400,
+    "n_thorough": 6000,
+    "trusted_base": TB_FOLD,
+    "assumptions": [
+        "fold half of C05 only (plus the fold halves of C12 and C14); the lexical-parser half is not covered",
+        "no statement about running time: head_skip_spaces in the stamp side door loops forever in Rust for a format with an empty parse space (no shipped format has one); the model runs it on fuel",
+    ],
+}
